@@ -29,7 +29,10 @@ CONSTANTS Streams,      \* set of stream ids
           Modes,        \* subset of {"full", "incr"}: what the first session may use
           MaxSessions,  \* number of StreamWriter sessions
           MaxCommits,   \* ordinary commits (before / between / after sessions)
-          MaxLevels     \* Options.MaxLevels
+          MaxLevels,    \* Options.MaxLevels
+          LevelFix      \* BOOLEAN. FALSE: the code as it is - after DB.Flatten an incremental session always
+                        \* writes to level MaxLevels-2; TRUE: intended - it moves one level up when that level
+                        \* holds the flattened data
 
 VARIABLES db,        \* entries readable in the database: set of [k, ts, kind, big]
           nextTs,    \* oracle.nextTxnTs
@@ -87,9 +90,12 @@ Fresh(S) == \A e \in S : \A f \in db : f.k = e.k => f.ts < e.ts
 Top == IF lv = {} THEN MaxLevels ELSE CHOOSE l \in lv : \A m \in lv : l <= m
 \* entries no reader can see any more: at or below a delete marker of their key
 Dead(S) == {e \in S : \E d \in S : d.k = e.k /\ d.kind = "del" /\ d.ts >= e.ts}
-\* DB.Flatten: nothing happens while a single level holds data; otherwise everything is compacted
-\* into the last level, and compactions into the last level drop dead entries
+\* DB.Flatten: nothing happens while a single level holds data; otherwise every level is compacted
+\* into the next one holding data (L0 into the top-most non-empty level below it: levelTargets
+\* never puts the base level below a non-empty level), so everything ends up in the deepest
+\* level that held data - not necessarily the last level.  These compactions drop dead entries.
 Flattens == Cardinality(lv) > 1
+Flattened == IF Flattens THEN {MaxOf(lv)} ELSE lv
 
 Init ==
     /\ db = {} /\ nextTs = 1 /\ lv = {} /\ may = {} /\ mem = FALSE
@@ -125,7 +131,8 @@ Reopen(X) ==
 \* ---- Prepare / PrepareIncremental
 \* full: dropAll, tables go to the last level. incr: needs an empty memtable (stream_writer.go:107);
 \* writes one level above the top-most level holding data; if that is L0 it calls DB.Flatten and
-\* writes to the level above the last one (also when Flatten left a lone L0 where it was)
+\* then assumes that everything sits in the last level: it writes to MaxLevels-2 (also when Flatten
+\* left a lone L0 where it was, and - LevelFix = FALSE - also when MaxLevels-2 is where the data went)
 Prepare(m) ==
     /\ phase = "idle" /\ sess < MaxSessions
     /\ m \in (IF sess = 0 THEN Modes ELSE {"incr"})
@@ -137,9 +144,13 @@ Prepare(m) ==
        THEN /\ db' = {} /\ expect' = {} /\ tables' = {} /\ mem' = FALSE
             /\ level' = MaxLevels - 1 /\ lv' = {} /\ may' = {}
        ELSE /\ UNCHANGED <<db, expect, tables, mem>>
-            /\ level' = IF Top = MaxLevels THEN MaxLevels - 1 ELSE IF Top = 0 THEN MaxLevels - 2 ELSE Top - 1
-            /\ lv' = IF Top = 0 /\ Flattens THEN {MaxLevels - 1} ELSE lv
-            /\ may' = IF Top = 0 /\ Flattens THEN may \cup Dead(db) ELSE may
+            \* LevelFix: a lone L0 is compacted away too (into the last level of the otherwise empty tree)
+            /\ lv' = IF Top # 0 THEN lv ELSE IF Flattens THEN Flattened ELSE IF LevelFix THEN {MaxLevels - 1} ELSE lv
+            /\ level' = IF Top = MaxLevels THEN MaxLevels - 1
+                        ELSE IF Top # 0 THEN Top - 1
+                        ELSE IF LevelFix /\ (MaxLevels - 2) \in Flattened THEN MaxLevels - 3
+                        ELSE MaxLevels - 2
+            /\ may' = IF Top = 0 /\ (Flattens \/ LevelFix) THEN may \cup Dead(db) ELSE may
     /\ UNCHANGED <<nextTs, ncommit>>
 
 \* ---- (ghost) the entries stream s is going to carry in this session: any sorted sequence of
